@@ -423,6 +423,33 @@ def check_reentrant(recipe, ctx):
                                'enclosing glom() calls finished:\n--- at catch time\n%s\n--- later\n%s' % (name_i, text, later))
             if text != iso[inner_i][0][2]:
                 raise Mismatch('reentrant', 'evaluation %s nested at depth 3 gives trace\n%s\nbut alone\n%s' % (name_i, text, iso[inner_i][0][2]))
+        # reading the text of the inner error (logging it) before re-raising is a pure observation: the error that
+        # then leaves the ENCLOSING call must carry that call's own trace either way
+        texts = []
+        for look in (False, True):
+            def inner_call2(t, look=look):
+                try:
+                    if how_i == 'glom':
+                        return glom.glom(tfac_i(), spec_i)
+                    if how_i[0] == 'scope':
+                        return glom.glom(tfac_i(), spec_i, scope=how_i[1])
+                    return how_i[1].glom(tfac_i(), spec_i)
+                except Exception as e:
+                    if look:
+                        str(e)
+                    raise
+            inner_call2.__name__ = 'inner_call2'
+            try:
+                glom.glom({'w': 1}, (inner_call2,))
+                texts.append('no error')
+            except Exception as e2:
+                texts.append(re.sub(r'inner_call2 at 0x[0-9a-f]+', 'inner_call2', ADDR.sub('', str(e2))))
+        if texts[0] != texts[1]:
+            raise Mismatch('enclosing-trace-lost', 'evaluation %s fails inside a callable of an enclosing glom() call; the message of '
+                           'the error leaving the enclosing call depends on whether the callable read str() of the inner error before '
+                           're-raising:\n--- not read\n%s\n--- read\n%s' % (name_i, texts[0], texts[1]))
+        if isinstance(kept[0][0], GlomError) and "Target: {'w': 1}" not in texts[0].split('\n')[2:3][0:1].__repr__():
+            raise Mismatch('enclosing-trace-lost', 'the trace of the enclosing call does not begin with its root target:\n%s' % texts[0])
         ctx.label('kept-inner-error')
     depth_max = max(d for d, _, _, _ in observed)
     ctx.label('depth-%d' % depth_max, 'catch-' + recipe['nest']['catch'])
